@@ -120,7 +120,8 @@ def literal(kind, v, src):
 
 
 def run_case(fam, b, case, values, style, wd):
-    other = "js" if b != "js" else "kotlin"
+    # the "other language" is the one most easily confused with the target: a name that has the target's name as a prefix
+    other = {"c": "cpp", "cpp": "c", "js": "kotlin"}.get(b, "js")
     def keyname(scope):
         return fam.key if scope == "shared" else "%s.%s" % (b if scope == "target" else other, fam.key)
     file_assign, cli, attrs = [], list(fam.base_cli(b)), []
